@@ -14,17 +14,17 @@ TECH = {
  "C07": "static: sink wiring by edge-cut reachability, regexp/syntax delimiter analysis, taint to PT log",
  "C08": "static: syntactic CIDR extraction from IsLocal, filter-shape reachability, sanitiser dominance",
  "C09": "static: io.Reader-contract rule on SSA, mask/shift constant tables, EOF edge shape",
- "C10": "static: constant agreement encoder/decoder, must-pass-through for SetMaxBuf, state-machine edges",
+ "C10": "static: constant agreement encoder/decoder, must-pass-through for SetMaxBuf, state-machine edges, symbolic comparison of the scanner's advance with the token bounds",
  "C11": "static: store-order rule for fronting, limit/status edge guards, codec constant agreement",
- "C12": "static: schema identity (types), edge-cut reachability of success returns through validations",
- "C13": "static: termination-construct reachability (E-PANIC) + use-after-error edge-cut reachability",
+ "C12": "static: schema identity (types), edge-cut reachability of success returns through validations, error discipline (no discarded decoder error, failure branches leave, constant format strings)",
+ "C13": "static: termination-construct reachability (E-PANIC) + use-after-error edge-cut reachability, nil interface results followed through the VTA call graph",
  "C14": "static: termination-construct reachability from HTTP handlers, label-set agreement, status mapping paths",
- "C15": "static: close-once/typestate rule, lockset x channel-mode rule, capacity gate reachability, nil-after-error summaries",
- "C16": "static: path pairing of slot get/ret over the CFG with hand-off events, arithmetic shape",
- "C17": "static: goroutine-exit channel rule, copy-on-enqueue provenance, close-once order, expiry comparison shape",
+ "C15": "static: close-once/typestate rule, lockset x channel-mode rule, capacity gate reachability, nil-after-error summaries, release-on-failure consistency (E-CLEANUP), lock pairing",
+ "C16": "static: path pairing of slot get/ret over the CFG with hand-off events, arithmetic shape, release-on-failure consistency (E-CLEANUP), lock pairing",
+ "C17": "static: goroutine-exit channel rule, copy-on-enqueue provenance, close-once order, expiry comparison shape, release-on-failure consistency (E-CLEANUP), guarded-by rows of the client map",
  "C18": "static: sanitiser shape reachability, provenance of address through the ring map, ring index arithmetic shape",
  "C19": "static: taint to logger through binCount, must-lockset/atomic discipline, predicate orientation",
- "C20": "static: flow-sensitive must-lockset against an explicit guarded-by table, atomic discipline, lock pairing/order",
+ "C20": "static: flow-sensitive must-lockset against an explicit guarded-by table, atomic discipline, lock pairing/order (never-released locks included), send-vs-close and store-after-go rules",
 }
 
 def load_meta():
